@@ -329,6 +329,11 @@ class FnDep:
             cal = t.get('callee') or ''
             if any(name.endswith(x) or cal.endswith(x) for x in self.eng.sites):
                 ch |= self.write_place(t['dst'], {('site', '%s#b%s:%s' % (self.body.path, self._term_block.get(id(t)), cal.split('::')[-1]))})
+            # a designated decoder handed over as a function value (`chunks.map(Scalar::from_bytes_be)`): the call that receives it is the site
+            for a in t['args']:
+                f = a.get('fn') if a.get('k') == 'const' else None
+                if f and any(f.endswith(x) for x in self.eng.sites):
+                    ch |= self.write_place(t['dst'], {('site', '%s#b%s:%s' % (self.body.path, self._term_block.get(id(t)), f.split('::')[-1]))})
         return ch
 
     def _xfer_call0(self, t):
